@@ -79,8 +79,10 @@ DEFAULT_COST = 0.6
 HEAVY_COST = 10          # thorough tier only
 HISTORY_MAX_COST = 2     # in-process histories use cheaper programs only
 
-QUICK = dict(gen_frac=0.5, alt_seeds=1, corpus_extra_preds=0, steps=5, min_tests=12)
-THOROUGH = dict(gen_frac=0.6, alt_seeds=3, corpus_extra_preds=99, steps=10, min_tests=40)
+QUICK = dict(gen_frac=0.5, alt_seeds=1, corpus_extra_preds=0, steps=6, min_tests=12,
+             hist_per_unit=3, singles=6)
+THOROUGH = dict(gen_frac=0.6, alt_seeds=3, corpus_extra_preds=99, steps=10, min_tests=40,
+                hist_per_unit=2, singles=24)
 BATCH = 40               # items per batch subprocess
 
 
@@ -197,8 +199,24 @@ def minimise(case, bucket):
         tgt = case['steps'][-1]
         short = dict(case)
         short['steps'] = [tgt]
-        if fails(short):
+        pair = None
+        alone = fails(short)
+        if not alone:
+            # the commonest shape of a history dependence: ONE earlier compilation
+            # (e.g. of another engine) changes the target's text
+            seen = set()
+            for st_ in reversed(case['steps'][:-1]):
+                k = json.dumps(st_[:2] if st_[0] == 'parse' else st_)
+                if k in seen or len(seen) >= 2 * MIN_TESTS[0]:
+                    continue
+                seen.add(k)
+                if fails(dict(case, steps=[st_, tgt])):
+                    pair = dict(case, steps=[st_, tgt])
+                    break
+        if alone:
             case = short
+        elif pair is not None:
+            case = pair
         else:
             head = core.ddmin(case['steps'][:-1],
                               lambda hs: fails(dict(case, steps=list(hs) + [tgt])),
@@ -238,8 +256,11 @@ def _draw_plan(ctx, k_alt):
 
 
 def _slim(item):
-    return {k: item[k] for k in ('id', 'text', 'flags', 'import_root', 'files', 'role')
-            if k in item}
+    d = {k: item[k] for k in ('id', 'text', 'flags', 'import_root', 'files', 'role')
+         if k in item}
+    if is_builtins(item):
+        d['shape'] = 'builtins'
+    return d
 
 
 def build_pool(ctx, col, prm):
@@ -275,9 +296,10 @@ def build_pool(ctx, col, prm):
     # every shard needs the special roles for its histories
     fixed = []
     core.hyp_run(fixed.append, st.tuples(G.failing_program(), G.incantation_program(),
-                                         G.tight_program()),
+                                         G.tight_program(), G.builtin_trio()),
                  6, ctx.hyp_seed + 2)
-    gen += list(fixed[-1])         # (a late example: the first ones are the simplest)
+    # (a late example: the first ones are the simplest)
+    gen += list(fixed[-1][:3]) + list(fixed[-1][3])
     for j, it in enumerate(gen):
         it['id'] = 'gen:%d' % j
         it['prefer'] = it.pop('preds')
@@ -286,8 +308,11 @@ def build_pool(ctx, col, prm):
     return items, n_gen
 
 
-def run_batches(pool, items, hashseed, prm, pick):
-    """One subprocess per BATCH items; -> {id: {'multi': [[pred, obs]..]}} or raises."""
+def run_batches(pool, items, hashseed, prm, pick, reverse=False, order_out=None):
+    """One subprocess per BATCH items; -> {id: {'multi': [[pred, obs]..]}} or raises.
+    reverse: the members of every batch are compiled in the opposite order (the batch is
+    itself a history; two different orders make a history dependence visible as a
+    difference).  order_out: dict filled with id -> ids of its batch in compile order."""
     res = {}
     normal = [it for it in items if it.get('role') != 'incantation']
     special = [it for it in items if it.get('role') == 'incantation']
@@ -300,15 +325,63 @@ def run_batches(pool, items, hashseed, prm, pick):
             chunks = [special]
         special = []
     for ch in chunks + [[it] for it in special]:
+        if reverse:
+            ch = list(reversed(ch))
         steps = []
         for it in ch:
-            extra = prm['corpus_extra_preds'] if it.get('role') in ('corpus',) or \
-                it['id'].startswith('corpus') else 0
-            steps.append(['compile_all', it['id'], it['prefer'], extra, pick])
+            steps.append(batch_step(it, prm, pick))
         out = L.run_sub(pool, steps, hashseed=hashseed)
         for it, o in zip(ch, out):
             res[it['id']] = o
+            if order_out is not None:
+                order_out[it['id']] = [x['id'] for x in ch]
     return res
+
+
+def batch_step(it, prm, pick):
+    extra = prm['corpus_extra_preds'] if it.get('role') in ('corpus',) or \
+        it['id'].startswith('corpus') else 0
+    return ['compile_all', it['id'], it['prefer'], extra, pick]
+
+
+def batch_history_steps(order, res, target_id, pred):
+    """The parses and compilations a batch subprocess performed up to and including
+    (target_id, pred), written as plain history steps (what compile_all does: one parse
+    to discover the predicates, then a fresh parse + program per predicate)."""
+    steps = []
+    for iid in order:
+        steps.append(['parse', iid])
+        for p, _ in res[iid]['multi']:
+            if p == '<parse>':
+                continue
+            steps.append(['compile', iid, p])
+            if iid == target_id and p == pred:
+                return steps
+        if iid == target_id:
+            break
+    steps.append(['compile', target_id, pred])
+    return steps
+
+
+def history_case(pool, steps, hashseed):
+    steps = [list(s) for s in steps]
+    used = set(s[1] for s in steps if len(s) > 1)
+    return {'kind': 'history', 'pool': {k: pool[k] for k in used}, 'steps': steps,
+            'hashseed': hashseed}
+
+
+def confirm_batch_history(col, pool, order, res, target_id, pred, hashseed):
+    """A batch observation differs from another configuration: is it a function of the
+    batch's own history?  Replays the batch prefix in a fresh interpreter and compares
+    with the target compiled alone (check_case).  -> True when reported as a failure."""
+    if target_id not in order:
+        return False
+    case = history_case(pool, batch_history_steps(order[target_id], res, target_id, pred),
+                        hashseed)
+    r = check_case(case)
+    for bkt, det in r:
+        col.fail(bkt, case, 'the compilations of one batch subprocess, replayed:\n' + det)
+    return bool(r)
 
 
 def item_multiset(item, obs_list):
@@ -354,8 +427,9 @@ def shard(ctx, col):
     by_id = {it['id']: it for it in items}
 
     # ---- (a) hash seeds -------------------------------------------------------
+    base_order = {}
     try:
-        base = run_batches(pool, items, hs0, prm, pick)
+        base = run_batches(pool, items, hs0, prm, pick, order_out=base_order)
     except L.SubTimeout:
         col.inconc('baseline_batch_timeout')
         return
@@ -367,8 +441,11 @@ def shard(ctx, col):
     for si, hs in enumerate(alt_seeds):
         # the first alternative seed sees everything, further seeds the generated part
         sub_items = items if si == 0 else [it for it in items if it['id'].startswith('gen')]
+        alt_order = {}
         try:
-            alt = run_batches(pool, sub_items, hs, prm, pick)
+            # the other hash seed compiles every batch in the opposite order
+            alt = run_batches(pool, sub_items, hs, prm, pick, reverse=True,
+                              order_out=alt_order)
         except L.SubTimeout:
             col.inconc('alt_seed_batch_timeout')
             continue
@@ -421,18 +498,86 @@ def shard(ctx, col):
                     if r:
                         for bkt, det in r:
                             col.fail(bkt, single, det)
+                    elif confirm_batch_history(col, pool, base_order, base, it['id'], p,
+                                               hs0) or \
+                            confirm_batch_history(col, pool, alt_order, alt, it['id'], p, hs):
+                        # not the hash seed: one of the two batch subprocesses gives a
+                        # text that depends on what it compiled before (reported there)
+                        pass
                     else:
-                        # shows only after the batch's earlier compilations
+                        # shows only inside the batches and is not reproduced from them
                         col.inconc('seed_difference_only_inside_batch')
                         col.notes.append('seed difference not reproduced alone: %s %s %s' % (
                             it['id'], p, d[0]))
 
     _t(col, 'all_batches', t_start)
-    # ---- (b) in-process histories ------------------------------------------------
-    n_hist = max(0, ctx.budget - n_gen)
+    # ---- (b1) the baseline batch is a history too: sampled members compiled alone ----
+    check_batch_singles(ctx, col, prm, items, pool, base, base_order, hs0, pick)
+    _t(col, 'batch_singles', t_start)
+    # ---- (b2) in-process histories -----------------------------------------------
+    n_hist = max(0, ctx.budget - n_gen) * prm['hist_per_unit']
     if n_hist:
-        run_histories(ctx, col, prm, items, pool, baseline, n_hist, hs0)
+        run_histories(ctx, col, prm, items, pool, baseline, n_hist, hs0,
+                      batch=(base_order, base))
     _t(col, 'histories_done', t_start)
+
+
+# ------------------------------------------------------------------ batch members alone
+
+def engine_of(item):
+    import re
+    m = re.search(r'@Engine\(\s*"(\w+)"', item['text'])
+    return m.group(1) if m else 'default'
+
+
+def is_builtins(item):
+    return item.get('shape') == 'builtins' or 'shape:builtins' in item.get('labels', [])
+
+
+def check_batch_singles(ctx, col, prm, items, pool, base, order, hs0, pick):
+    """The baseline of an item comes from a batch subprocess that compiled the earlier
+    items of the batch first.  A sample of items (built-in programs first, the rest
+    rotated by the drawn pick) is compiled again alone in a fresh interpreter with the
+    same hash seed; any difference is a dependence on the batch's history."""
+    n = prm['singles']
+    cands = [it for it in items if it.get('cost', DEFAULT_COST) <= HISTORY_MAX_COST and
+             order.get(it['id'], [None])[0] != it['id']]
+    if not cands or n <= 0:
+        return
+    bi = [it for it in cands if is_builtins(it)]
+    rest = [it for it in cands if not is_builtins(it)]
+    k = pick % len(rest) if rest else 0
+    rest = rest[k:] + rest[:k]
+    chosen = bi[:(n + 1) // 2]
+    chosen += rest[:n - len(chosen)]
+    for it in chosen:
+        try:
+            alone = L.run_sub(pool, [batch_step(it, prm, pick)], hashseed=hs0)[0]
+        except L.SubTimeout:
+            col.inconc('single_compilation_timeout')
+            continue
+        a = base[it['id']]['multi']
+        b = alone['multi']
+        ids = order[it['id']]
+        before = ids[:ids.index(it['id'])]
+        engines = sorted(set(engine_of(pool[q]) for q in before))
+        for (p, oa), (q, ob) in zip(a, b):
+            if p != q:
+                break
+            labels = list(it.get('labels', [])) + [
+                'kind:batch_history', 'batch_prefix_len:%d' % (len(before) // 5 * 5),
+                'batch_prefix_engines:%d' % len(engines)]
+            if len([e for e in engines if e != engine_of(it)]) >= 1:
+                labels.append('other_engine_compiled_before')
+            d, notes = L.compare(ob, oa)
+            col.case(('batch_history', tuple(pool[q]['text'] for q in before), it['text'], p),
+                     bool(before) and 'err' not in ob, labels + notes,
+                     sample={'kind': 'batch_history', 'compiled_before': before,
+                             'predicate': p, 'program': it['text'][:1500]})
+            if d and not confirm_batch_history(col, pool, order, base, it['id'], p, hs0):
+                col.inconc('batch_difference_not_reproduced_in_fresh_process')
+                col.notes.append('batch vs alone difference (%s) of %s %s not reproduced' % (
+                    d[0], it['id'], p))
 
 
 # ------------------------------------------------------------------ histories
@@ -440,9 +585,10 @@ def shard(ctx, col):
 class Hist(object):
     """Book-keeping shared by all state-machine runs of this worker process."""
 
-    def __init__(self, ctx, col, pool, baseline, by_role, hs0):
+    def __init__(self, ctx, col, pool, baseline, by_role, hs0, batch=None):
         self.ctx, self.col, self.pool, self.baseline = ctx, col, pool, baseline
         self.hs0 = hs0
+        self.batch = batch             # (order, observations) of the baseline batches
         self.roles_of = {k: v.get('role') for k, v in pool.items()}
         self.by_role = by_role
         self.process_log = []          # every step executed in this process so far
@@ -454,6 +600,7 @@ class Hist(object):
         self.steps = []
         self.n_obs = 0
         self.programs_seen = []
+        self.last_engine = None
         self.labels = set()
         self.nontrivial = False
         self.session = L.Session(self.pool)
@@ -491,6 +638,12 @@ class Hist(object):
             self.nontrivial = True
         self.programs_seen.append(pid)
         self.labels.add('step:' + st_[0])
+        e = engine_of(self.pool[pid])
+        if self.last_engine not in (None, e):
+            self.labels.add('obs:engine_switch_in_history')
+            if is_builtins(self.pool[pid]):
+                self.labels.add('obs:builtins_program_after_other_engine')
+        self.last_engine = e
         if o.get('rules_unchanged') is False:
             self.labels.add('obs:caller_rules_object_mutated')
             if not any('caller-owned rules' in n for n in self.col.notes):
@@ -510,13 +663,12 @@ class Hist(object):
             self.col._fail_count[bucket_guess] += 1
             return
 
-        def mk(steps):
-            steps = [list(s) for s in steps]
-            used = set(s[1] for s in steps if len(s) > 1)
-            return {'kind': 'history', 'pool': {k: self.pool[k] for k in used},
-                    'steps': steps, 'hashseed': self.hs0}
+        # Two histories are involved in an in-process mismatch: the worker's own (this
+        # state-machine run, preceded by every earlier run of the process) and the one
+        # of the batch subprocess that produced the baseline text.  Each is replayed in
+        # a fresh interpreter and compared with the target compiled alone.
         for steps in (self.steps, self.process_log):
-            case = mk(steps)
+            case = history_case(self.pool, steps, self.hs0)
             r = check_case(case)
             if r:
                 for bkt, det in r:
@@ -524,12 +676,21 @@ class Hist(object):
                     self.col.fail(bkt, case, det)
                 self.failed_buckets.add(bucket_guess)
                 return
+        if self.batch is not None and len(st_) > 2:
+            n0 = len(self.col.failures)
+            if confirm_batch_history(self.col, self.pool, self.batch[0], self.batch[1],
+                                     st_[1], st_[2], self.hs0):
+                self.failed_buckets.add(bucket_guess)
+                for f in self.col.failures[n0:]:
+                    self.failed_buckets.add(f['bucket'])
+                return
         self.col.inconc('history_mismatch_not_reproduced_in_fresh_process')
         self.col.notes.append('in-process mismatch (%s) at %s not reproduced by replaying '
-                              'the process log in a fresh interpreter' % (d[0], st_))
+                              'the process log or the baseline batch in a fresh '
+                              'interpreter' % (d[0], st_))
 
 
-def run_histories(ctx, col, prm, items, pool, baseline, n_hist, hs0):
+def run_histories(ctx, col, prm, items, pool, baseline, n_hist, hs0, batch=None):
     usable = []
     for it in items:
         preds = [p for (i, p) in baseline if i == it['id'] and p != '<parse>']
@@ -545,10 +706,12 @@ def run_histories(ctx, col, prm, items, pool, baseline, n_hist, hs0):
              'incantation': [u for u in usable if u[0].get('role') == 'incantation'],
              'sensitive': [u for u in usable if u[0].get('parser_state_sensitive')],
              'multi': [u for u in usable if len(u[1]) >= 1 and
-                       u[0].get('role') in ('gen', 'corpus')]}
+                       u[0].get('role') in ('gen', 'corpus')],
+             'builtins': [u for u in usable if is_builtins(u[0])]}
+    eng = {u[0]['id']: engine_of(u[0]) for u in usable}
     if not usable:
         return
-    H = Hist(ctx, col, pool, baseline, roles, hs0)
+    H = Hist(ctx, col, pool, baseline, roles, hs0, batch)
 
     def pick(role, i, pi):
         lst = roles[role]
@@ -595,6 +758,21 @@ def run_histories(ctx, col, prm, items, pool, baseline, n_hist, hs0):
             it, p = pick('sensitive', j, pi)
             H.labels.add('step:compile_sensitive')
             self._compile(it, p)
+
+        @precondition(lambda self: len(set(eng[u[0]['id']] for u in roles['builtins'])) >= 2)
+        @rule(i=idx, j=idx, pi=idx, pj=idx, first=st.sampled_from(['builtins', 'any']))
+        def engine_switch(self, i, j, pi, pj, first):
+            """A program of engine A, then a built-in program of another engine B."""
+            a, p = pick(first, i, pi)
+            lst = roles['builtins']
+            others = [u for u in lst if eng[u[0]['id']] != eng[a['id']]]
+            if not others:
+                return
+            b, preds = others[j % len(others)]
+            H.labels.add('step:engine_switch')
+            H.labels.add('switch_to:' + eng[b['id']])
+            self._compile(a, p)
+            self._compile(b, preds[pj % len(preds)])
 
         @precondition(lambda self: bool(roles['multi']))
         @rule(i=idx, pi=idx, pj=idx, mode=st.sampled_from(['rules_twice', 'program_twice']))
